@@ -309,6 +309,30 @@ func TestQuery(t *testing.T) {
 				}
 			}
 		}
+		// numbers at the edges of what an integer holds, and far beyond: a number all the same, the one the digits say
+		// (the nearest float64 where no int64 holds it)
+		for _, v := range []string{"9223372036854775807", "9223372036854775808", "-9223372036854775808", "-9223372036854775809", "18446744073709551616",
+			"-31415926535897932384626433", "99999999999999999999999", "1" + strings.Repeat("0", 40), "-1" + strings.Repeat("0", 25), "00000000000000000000007", "+18446744073709551616"} {
+			_, ps, err := jhttp.ParseQuery(httptest.NewRequest("GET", "http://h/echo?x="+url.QueryEscape(v), nil))
+			res.Evaluations++
+			if err != nil {
+				res.add(v, "ParseQuery failed on a string of digits: "+err.Error())
+				continue
+			}
+			want, _ := strconv.ParseFloat(v, 64)
+			switch x := ps.(map[string]any)["x"].(type) {
+			case int64:
+				if n, perr := strconv.ParseInt(v, 10, 64); perr != nil || n != x {
+					res.add(v, fmt.Sprintf("typed as the integer %d", x))
+				}
+			case float64:
+				if x != want {
+					res.add(v, fmt.Sprintf("typed as the number %v, the digits say %v", x, want))
+				}
+			default:
+				res.add(v, fmt.Sprintf("typed as %T (%v), want a number", x, x))
+			}
+		}
 		// several parameters in one query: each is typed by itself - what one holds does not depend on its neighbours
 		// (two byte strings, a byte string next to numbers, the same value twice)
 		{
